@@ -216,4 +216,25 @@ example : adjScanOrder 5 = [0, 1, -1, 2, -2] := by decide +kernel
 example : adjScanOrder 4 = [1/2, -1/2, 3/2, -3/2] := by decide +kernel
 example : adjScanOrder 1 = [0] := by decide +kernel
 
+/-! ### loop semantics -/
+
+open Femto.Ctl in
+/-- number of shutter openings in a trace -/
+def countOpen (evs : List Ev) : Nat := (evs.filter fun e => e == .pso true).length
+
+theorem countOpen_append (a b : List Ev) : countOpen (a ++ b) = countOpen a + countOpen b := by
+  simp [countOpen, List.filter_append]
+
+/-- **a `REPEAT n` block performs its body `n` times**: if one execution of the body opens the shutter `k` times from any
+state (a write block opens it once per open-shutter piece of the path), the loop opens it `n * k` times -/
+theorem repeat_multiplies (body : List Stmt) (k : Nat) (hk : ∀ σ, countOpen (execStmts body σ).2 = k) (n : Nat) (σ : St) :
+    countOpen (execStmt (.rep n body) σ).2 = n * k := by
+  rw [execStmt]
+  induction n generalizing σ with
+  | zero => simp [execRep, countOpen]
+  | succ n ih =>
+    rw [execRep]
+    simp only [countOpen_append, hk, ih]
+    ring
+
 end Femto.C08
